@@ -12,11 +12,12 @@ from lib.pipeline import Finding
 PROP = "C19"
 LEVEL = "proof"
 USES_MODEL = False
-THEOREMS = {"Proofs.Props.C19": ["MsPack.C19.writable_statics_inventory", "MsPack.C19.writable_statics_never_written",
+THEOREMS = {"Proofs.Props.C19": ["MsPack.C19.writable_statics_inventory", "MsPack.C19.writable_statics_never_written", "MsPack.C19.imports_state_free",
                                  "MsPack.C19.instances_independent", "MsPack.C19.cab_instances_independent"]}
 ASSUMPTIONS = ["a Lean model cannot exhibit a C data race: the theorem covers the mechanism (no writable statics that are written; per-instance state only)",
                "the C memory model, schedules and libc re-entrancy of the default system are observed only through the TSan runs",
-               "inventory = nm on objects compiled with gcc -O1 from the current sources + a textual scan of every line naming those objects"]
+               "inventory = nm on objects compiled with gcc -O1 from the current sources (writable-section symbols and undefined symbols) + a textual scan of every line naming those objects",
+               "imports_state_free is proved against an allow-list of libc entry points (in the theorem's file) that POSIX/glibc document as keeping no process-wide mutable state; glibc's behaviour behind those entry points is trusted"]
 RULE = ("scenario cases for all five formats (fixtures + generated small archives), run concurrently by 2/4/8 threads under TSan, each thread's "
         "output compared with the solo run of the same scenario; non-trivial = a scenario that performs at least one decompression; distinct by file hash")
 
